@@ -416,6 +416,22 @@ fn run(e: &Engine) {
         },
         check,
     );
+    // keyword chimeras (head of one keyword, tail of another, ...) for every type and builder path
+    let chim = crate::model::mnemonic::keyword_chimeras();
+    let chimr = &chim;
+    const ALL_TY: [Ty; 7] = [Ty::U8, Ty::I32, Ty::I64, Ty::F32, Ty::F64, Ty::Freq, Ty::Time];
+    e.enumerate::<Case, _, _>(
+        "keyword-chimeras",
+        ALL_TY.len() as u64,
+        move |p, f| {
+            for (i, w) in chimr.iter().enumerate() {
+                if !f(Case { ty: ALL_TY[p as usize], tok: Tok::Chr(w.clone()), min: 2f64.to_bits(), max: 100f64.to_bits(), default: Some(7f64.to_bits()), path: (i % 7) as u8 }) {
+                    return;
+                }
+            }
+        },
+        check,
+    );
     e.proptest("numeric-value", e.tier.pick(1_000_000, 20_000_000), case_strategy, check);
     e.require_fraction("keyword", "keyword", 1.0);
     if !e.replay_only && !e.failed() {
